@@ -224,6 +224,17 @@ pub fn run_crash_case(
                                 format!("{at}: the tree equals b{last:04} yet the resumed backup wrote {writes:?}"),
                             ));
                         }
+                        // every file is recognised as unmodified (content-hash deduplication
+                        // would otherwise hide a lost basis)
+                        if stats.new_files != 0 || stats.modified_files != 0 {
+                            res.c14.push(Violation::new(
+                                format!("C14:resume-of-unchanged-tree-does-not-reuse-entries:{site}"),
+                                format!(
+                                    "{at}: the tree equals b{last:04} yet the resumed backup counts {} new and {} modified files ({} unmodified)",
+                                    stats.new_files, stats.modified_files, stats.unmodified_files
+                                ),
+                            ));
+                        }
                         let old: Vec<_> = snap2.band_entries(*last).into_iter().map(|e| (e.apath, e.addrs)).collect();
                         let newe: Vec<_> = snap2.band_entries(newest).into_iter().map(|e| (e.apath, e.addrs)).collect();
                         if old != newe {
